@@ -2,8 +2,9 @@
   Sipsp.Proofs.SigCovered — (1) [C19] the `Covered` hypothesis of the factorisation / invariance theorems (the flag word
   of the header list covers the fingerprinted stored types, `FlagsCover`) holds for EVERY output of the parser, with
   ANY values object; (2) [C05] the shortcut values of the values object equal the `val` of the first stored header of
-  their type.  Everything is about the model (`parseHeaders`, `parseSIPMsg`, `getMsgSig`); NO size bound anywhere in
-  this file (no 65,535-byte hypothesis), no grammar assumption: all buffers, offsets, flags, capacities, verdicts.
+  their type.  Everything is about the model (`parseHeaders`, `parseSIPMsg`, `getMsgSig`); NO size bound in (1) and in
+  (2a)-(2e) (no 65,535-byte hypothesis; only (2f) has it), no grammar assumption: all buffers, offsets, flags,
+  capacities, verdicts.
 
   (1) EXPORT C19.
   * `SvCov` (every counted, stored header of a fingerprinted type has its flag set) is kept by every step of the list
@@ -36,15 +37,22 @@
     repeated headers of the type and trailing white space do not break it (later headers of the type are scanned
     generically and do not touch the shortcut; both spans exclude the trailing white space: tests at the end).
     `shortcut_parsed_of_flag`: the type flag set (also when the array was too small to store the header) ⇒ parsed.
-  * Contact / P-Asserted-Identity (`lastHVal` bookkeeping): see (2f) at the end of the file for what is proved.
+  * (2f) Contact / P-Asserted-Identity (`lastHVal` bookkeeping; buffers within 65,535 bytes): `sv_lhv_step`,
+    `svc_contactsLoop`, `svc_contact_line`, `svc_parseBody_contact`, `svc_contact_header` (and `svc_paisLoop`,
+    `svc_pai_line`, `svc_parseBody_pai`, `svc_pai_header`): for ONE header line of the type, parsed on an idle value
+    list object of any capacity with verdict OK, the header's `val` IS the running header value, it ends at or before
+    the returned offset, and every value stored from that line lies inside it (`svInside`), empty `V`s excepted; the
+    values stored before are not looked at.
 
   Assumptions inherited from `ScReach` / `ScMsg_init`: caller arrays handed to Init are cleared (`Array.replicate k {}`).
   NOT proved here: the converse "shortcut parsed ⇒ its type flag is set" (true from Init, not needed); for Contact /
   P-Asserted-Identity the message-level statement "every stored value lies inside the `val` of a stored header of
-  that type" (only the per-line statement is proved, see (2f)).
+  that type" (only the per-line statement (2f) is proved; the association of the values with the stored headers
+  through ParseHeaders, and that a reported `V` is never empty, are not).
 -/
 import Sipsp.Proofs.SigCompose
 import Sipsp.Proofs.HdrSound
+import Sipsp.Proofs.NaNest
 
 namespace Sipsp
 
@@ -165,6 +173,17 @@ theorem covered_any_values_reset (b : Buf) (o : Nat) (hl : HdrLst) (hb : Option 
     rw [sc_map_const]
   rw [hre] at hr
   exact covered_any_values_new b o _ hb hr
+
+/-- test / non-vacuity: `covered_any_values_new` applies to a block with typed lines parsed with a values object
+    (capacity 2 for three headers: compact From, CSeq, `Q`) -/
+example : FlagsCover (parseHeaders hsDemoTyped 0 (hsNew 2) (some {})).2.2.1.pflags
+    (parseHeaders hsDemoTyped 0 (hsNew 2) (some {})).2.2.1.hdrs.toList := by
+  have h2 : (parseHeaders hsDemoTyped 0 (hsNew 2) (some {})).2.1 = .ok := by decide +kernel
+  rcases h : parseHeaders hsDemoTyped 0 (hsNew 2) (some {}) with ⟨e, er, hl', hb'⟩
+  rw [h] at h2
+  simp only at h2
+  subst h2
+  exact covered_any_values_new hsDemoTyped 0 2 (some {}) h
 
 /-! ### (1b) the message object -/
 
@@ -1372,8 +1391,298 @@ example : (svTestM 8).hl.hdrs[0]!.val = (svTestM 8).pv.from_.v ∧ (svTestM 8).p
     (svTestM 8).hl.hdrs[5]!.val = (svTestM 8).pv.expires.sVal ∧
     (svTestM 8).hl.hdrs[6]!.val = (svTestM 8).pv.clen.sVal := by decide +kernel
 
+/-- use of the theorem on the test message: the To header (index 2, after the two From headers); the hypothesis
+    `SvFirstOf` is checked by evaluation -/
+example : (svTestM 8).pv.to.parsed = true ∧ (svTestM 8).hl.hdrs[2]!.val = (svTestM 8).pv.to.v :=
+  shortcut_eq_first_header .to (svTestM 8) svTest_parsed 2 (by unfold SvFirstOf; decide +kernel)
+
 /-- test: an array of 2 stores the two From headers only; To is parsed (flag set) but not stored -/
 example : (svTestM 2).hl.n = 7 ∧ (svTestM 2).hl.hdrs.size = 2 ∧ (svTestM 2).pv.to.parsed = true ∧
     (svTestM 2).hl.hdrs[0]!.val = (svTestM 2).pv.from_.v := by decide +kernel
+
+/-! ### (2f) [C05] Contact / P-Asserted-Identity: the running header value (`lastHVal`) covers the values of its line
+
+  Proved (buffers within the 65,535-byte limit, any capacity, value list object idle = between two header lines): after
+  the value list of ONE Contact (P-Asserted-Identity) header line was parsed with verdict OK, every value stored from
+  that line lies inside the running header value `lastHVal` — which is what ParseHdrLine copies into the `val` of that
+  header (`svc_parseBody_contact`, `svc_parseBody_pai`) — unless its `V` is empty.  The values stored before are
+  untouched.  The statement for the whole message (association of every stored value with a stored header of the
+  type) is NOT proved here. -/
+
+/-- `v` lies inside the span `L` -/
+def svInside (L v : PField) : Prop := L.offs ≤ v.offs ∧ v.offs + v.len ≤ L.offs + L.len
+
+/-- one step of the `lastHVal` bookkeeping: the span ended at or before `o`, the new value lies in `[o, next)` -/
+theorem sv_lhv_step (L v : PField) (o next : Nat) (hL : L.offs + L.len ≤ o) (h1 : o ≤ v.offs)
+    (h2 : v.offs + v.len ≤ next) (h3 : next ≤ 65535) :
+    (if L.isEmpty then v else L.extend v.endT).offs + (if L.isEmpty then v else L.extend v.endT).len ≤ next ∧
+    svInside (if L.isEmpty then v else L.extend v.endT) v ∧
+    (∀ f : PField, f.len = 0 ∨ svInside L f → f.len = 0 ∨ svInside (if L.isEmpty then v else L.extend v.endT) f) := by
+  obtain ⟨lo, ll⟩ := L
+  obtain ⟨vo, vl⟩ := v
+  simp only at hL h1 h2
+  by_cases he : ll = 0
+  · subst he
+    have hemp : (PField.isEmpty ⟨lo, 0⟩) = true := rfl
+    simp only [hemp, ↓reduceIte]
+    refine ⟨h2, ⟨Nat.le_refl _, Nat.le_refl _⟩, fun f hf => ?_⟩
+    rcases hf with hf | ⟨hf1, hf2⟩
+    · exact Or.inl hf
+    · left
+      have hf1' : lo ≤ f.offs := hf1
+      have hf2' : f.offs + f.len ≤ lo + 0 := hf2
+      omega
+  · have hemp : (PField.isEmpty ⟨lo, ll⟩) = false := by
+      unfold PField.isEmpty; simpa using he
+    simp only [hemp, Bool.false_eq_true, ↓reduceIte]
+    have hlen : ((PField.extend ⟨lo, ll⟩ (PField.endT ⟨vo, vl⟩)).len) = vo + vl - lo := by
+      show (trunc16 (trunc16 (vo + vl)) + 65536 - lo) % 65536 = vo + vl - lo
+      unfold trunc16
+      omega
+    have hoffs : ((PField.extend ⟨lo, ll⟩ (PField.endT ⟨vo, vl⟩)).offs) = lo := rfl
+    refine ⟨by rw [hlen, hoffs]; omega, ⟨by rw [hoffs]; show lo ≤ vo; omega, by
+      rw [hlen, hoffs]; show vo + vl ≤ lo + (vo + vl - lo); omega⟩, fun f hf => ?_⟩
+    rcases hf with hf | ⟨hf1, hf2⟩
+    · exact Or.inl hf
+    · right
+      have hf1' : lo ≤ f.offs := hf1
+      have hf2' : f.offs + f.len ≤ lo + ll := hf2
+      exact ⟨by rw [hoffs]; exact hf1', by rw [hlen, hoffs]; omega⟩
+
+/-- the running header value ends at or before `o` and covers every value stored from index `n0` on (empty `V`s
+    excepted) -/
+def CtSpan (c : PContacts) (n0 o : Nat) : Prop :=
+  c.lastHVal.offs + c.lastHVal.len ≤ o ∧
+  ∀ i, n0 ≤ i → i < c.n → i < c.vals.size → c.vals[i]!.v.len = 0 ∨ svInside c.lastHVal c.vals[i]!.v
+
+theorem CtSpan.step {c : PContacts} {n0 o : Nat} (H : CtSpan c n0 o) (pf : PFromBody) (next : Nat)
+    (h1 : o ≤ pf.v.offs) (h2 : pf.v.offs + pf.v.len ≤ next) (h3 : next ≤ 65535) :
+    CtSpan ((c.setCur pf).account pf) n0 next := by
+  have hl : ((c.setCur pf).account pf).lastHVal =
+      if c.lastHVal.isEmpty then pf.v else c.lastHVal.extend pf.v.endT := by
+    rw [account_lhv, (setCur_scalars c pf).2.2.2.1]
+  obtain ⟨q1, q2, q3⟩ := sv_lhv_step c.lastHVal pf.v o next H.1 h1 h2 h3
+  refine ⟨by rw [hl]; exact q1, fun i hn hi hs => ?_⟩
+  rw [account_n, setCur_n] at hi
+  rw [account_vals, setCur_size] at hs
+  rw [account_vals, hl]
+  by_cases hin : i = c.n
+  · subst hin
+    rw [setCur_get_n c pf hs]
+    exact Or.inr q2
+  · rw [setCur_vals_ne c pf i (by omega)]
+    exact q3 _ (H.2 i hn (by omega) hs)
+
+/-- **the loop of ParseAllContactValues** on an idle object: after OK the running header value covers the values of
+    this line and ends at or before the returned offset -/
+theorem svc_contactsLoop (b : Buf) (offs : Nat) (c : PContacts) (hfit : b.size ≤ 65535) (ho : offs ≤ b.size)
+    (hcl : CtClean c) (hcur : c.cur = {}) (n0 : Nat) (h : CtSpan c n0 offs) :
+    (contactsLoop b offs c).2.1 = .ok → CtSpan (contactsLoop b offs c).2.2 n0 (contactsLoop b offs c).1 := by
+  induction hk : b.size - offs using Nat.strongRecOn generalizing offs c with
+  | _ k ih =>
+    rw [contactsLoop]
+    rcases hp : parseOneContact b offs c.cur with ⟨next, e1, pf⟩
+    have hp' : parseNameAddrPVal HdrContact b offs {} = (next, e1, pf) := by rw [hcur] at hp; exact hp
+    have hout := (parseNameAddrPVal_safe HdrContact b offs {} (NaEntry_new b offs ho) hp').1
+    have hacc : Err.complete e1 → CtSpan ((c.setCur pf).account pf) n0 next := fun hc =>
+      h.step pf next (parseNameAddrPVal_nest_new HdrContact b offs hfit ho hp' hc).2 hout.v (by have := hout.ho; omega)
+    cases e1 <;> simp only
+    case ok => exact fun _ => hacc (Or.inl rfl)
+    case moreValues =>
+      have hnx : (if c.n < c.vals.size then (c.setCur pf).account pf
+          else { (c.setCur pf).account pf with last := {} }) = c.next pf := rfl
+      rw [hnx]
+      have hcl' := next_clean c pf hcl
+      have hL : CtSpan (c.next pf) n0 next := by
+        have := hacc (Or.inr rfl)
+        unfold PContacts.next; split
+        · exact this
+        · exact this
+      by_cases hg : offs < next ∧ next ≤ b.size
+      · rw [if_pos hg]
+        exact ih (b.size - next) (by omega) next (c.next pf) hg.2 hcl'.1 hcl'.2 hL rfl
+      · rw [if_neg hg]; exact fun hh => by cases hh
+    all_goals exact fun hh => by cases hh
+
+/-- **one Contact header line** (value list object idle, any capacity; `k` = the new header count): after OK every value
+    stored from this line — index `c.n` on — lies inside the running header value of the result (empty `V`s excepted),
+    which ends at or before the returned offset -/
+theorem svc_contact_line (b : Buf) (o : Nat) (c : PContacts) (k : Nat) (hfit : b.size ≤ 65535) (ho : o ≤ b.size)
+    (hcl : CtClean c.wrap) (hcur : c.wrap.cur = {}) {o' : Nat} {c' : PContacts}
+    (hr : parseAllContactValues b o { c with hNo := k, lastHVal := {} } = (o', .ok, c')) :
+    c'.lastHVal.offs + c'.lastHVal.len ≤ o' ∧
+    ∀ i, c.n ≤ i → i < c'.n → i < c'.vals.size → c'.vals[i]!.v.len = 0 ∨ svInside c'.lastHVal c'.vals[i]!.v := by
+  rw [parseAllContactValues_eq_wrap, bump_wrap] at hr
+  have h0 : CtSpan ({ c.wrap with hNo := k, lastHVal := {} } : PContacts) c.n o :=
+    ⟨Nat.zero_le _, fun i hn hi _ => by
+      have hi' : i < c.wrap.n := hi
+      rw [(wrap_scalars c).1] at hi'; omega⟩
+  have := svc_contactsLoop b o { c.wrap with hNo := k, lastHVal := {} } hfit ho hcl hcur c.n h0
+  rw [hr] at this
+  exact this rfl
+
+/-- what the dispatch does for a header of type Contact that is not in the middle of its value list: the value list
+    object gets a new header count and an empty running value, ParseAllContactValues runs, and on OK the header's
+    `val` is the running header value of the result -/
+theorem svc_parseBody_contact (b : Buf) (i : Nat) (h : Hdr) (hv : PHdrVals) (ht : h.type = HdrContact)
+    (hs : h.state ≠ .hContact) :
+    parseBody b i h (some hv) =
+      ((parseAllContactValues b i { hv.contacts with hNo := hv.contacts.hNo + 1, lastHVal := {} }).1,
+       (parseAllContactValues b i { hv.contacts with hNo := hv.contacts.hNo + 1, lastHVal := {} }).2.1,
+       { h with state := .hContact,
+                val := if (parseAllContactValues b i { hv.contacts with hNo := hv.contacts.hNo + 1, lastHVal := {} }).2.1 == .ok
+                       then (parseAllContactValues b i { hv.contacts with hNo := hv.contacts.hNo + 1, lastHVal := {} }).2.2.lastHVal
+                       else h.val },
+       some { hv with contacts := (parseAllContactValues b i { hv.contacts with hNo := hv.contacts.hNo + 1, lastHVal := {} }).2.2 }) := by
+  have hs' : (h.state != HState.hContact) = true := by simpa using hs
+  unfold parseBody
+  simp only [ht, hs', ↓reduceIte]
+  rfl
+
+/-- the same for the identity list -/
+def PaSpan (c : PPAIs) (n0 o : Nat) : Prop :=
+  c.lastHVal.offs + c.lastHVal.len ≤ o ∧
+  ∀ i, n0 ≤ i → i < c.n → i < c.vals.size → c.vals[i]!.v.len = 0 ∨ svInside c.lastHVal c.vals[i]!.v
+
+theorem PaSpan.step {c : PPAIs} {n0 o : Nat} (H : PaSpan c n0 o) (pf : PFromBody) (next : Nat)
+    (h1 : o ≤ pf.v.offs) (h2 : pf.v.offs + pf.v.len ≤ next) (h3 : next ≤ 65535) :
+    PaSpan ((c.setCur pf).account pf) n0 next := by
+  have hl : ((c.setCur pf).account pf).lastHVal =
+      if c.lastHVal.isEmpty then pf.v else c.lastHVal.extend pf.v.endT := by
+    rw [paAccount_lhv, (paSetCur_scalars c pf).2.1]
+  obtain ⟨q1, q2, q3⟩ := sv_lhv_step c.lastHVal pf.v o next H.1 h1 h2 h3
+  refine ⟨by rw [hl]; exact q1, fun i hn hi hs => ?_⟩
+  rw [paAccount_n, paSetCur_n] at hi
+  rw [paAccount_vals, paSetCur_size] at hs
+  rw [paAccount_vals, hl]
+  by_cases hin : i = c.n
+  · subst hin
+    rw [paSetCur_get_n c pf hs]
+    exact Or.inr q2
+  · rw [paSetCur_vals_ne c pf i (by omega)]
+    exact q3 _ (H.2 i hn (by omega) hs)
+
+/-- **the loop of ParseAllPAIValues** on an idle object -/
+theorem svc_paisLoop (b : Buf) (offs : Nat) (c : PPAIs) (hfit : b.size ≤ 65535) (ho : offs ≤ b.size)
+    (hcl : PaClean c) (hcur : c.cur = {}) (n0 : Nat) (h : PaSpan c n0 offs) :
+    (paisLoop b offs c).2.1 = .ok → PaSpan (paisLoop b offs c).2.2 n0 (paisLoop b offs c).1 := by
+  induction hk : b.size - offs using Nat.strongRecOn generalizing offs c with
+  | _ k ih =>
+    rw [paisLoop]
+    rcases hp : parseOnePAI b offs c.cur with ⟨next, e1, pf⟩
+    obtain ⟨e0, hp0, hok0, hmv0, _⟩ := parseOnePAI_under b offs c.cur hp
+    have hp' : parseNameAddrPVal HdrPAI b offs {} = (next, e0, pf) := by rw [hcur] at hp0; exact hp0
+    have hout := (parseNameAddrPVal_safe HdrPAI b offs {} (NaEntry_new b offs ho) hp').1
+    have hacc : Err.complete e0 → PaSpan ((c.setCur pf).account pf) n0 next := fun hc =>
+      h.step pf next (parseNameAddrPVal_nest_new HdrPAI b offs hfit ho hp' hc).2 hout.v (by have := hout.ho; omega)
+    cases e1 <;> simp only
+    case ok => exact fun _ => hacc (Or.inl (hok0 rfl))
+    case moreValues =>
+      have hnx : (if c.n < c.vals.size then (c.setCur pf).account pf
+          else { (c.setCur pf).account pf with last := {} }) = c.next pf := rfl
+      rw [hnx]
+      have hcl' := paNext_clean c pf hcl
+      have hL : PaSpan (c.next pf) n0 next := by
+        have := hacc (Or.inr (hmv0 rfl))
+        unfold PPAIs.next; split
+        · exact this
+        · exact this
+      by_cases hg : offs < next ∧ next ≤ b.size
+      · rw [if_pos hg]
+        exact ih (b.size - next) (by omega) next (c.next pf) hg.2 hcl'.1 hcl'.2 hL rfl
+      · rw [if_neg hg]; exact fun hh => by cases hh
+    all_goals exact fun hh => by cases hh
+
+/-- **one P-Asserted-Identity header line** (identity list object idle): after OK every identity stored from this line
+    lies inside the running header value of the result (empty `V`s excepted) -/
+theorem svc_pai_line (b : Buf) (o : Nat) (c : PPAIs) (k : Nat) (hfit : b.size ≤ 65535) (ho : o ≤ b.size)
+    (hcl : PaClean c.wrap) (hcur : c.wrap.cur = {}) {o' : Nat} {c' : PPAIs}
+    (hr : parseAllPAIValues b o { c with hNo := k, lastHVal := {} } = (o', .ok, c')) :
+    c'.lastHVal.offs + c'.lastHVal.len ≤ o' ∧
+    ∀ i, c.n ≤ i → i < c'.n → i < c'.vals.size → c'.vals[i]!.v.len = 0 ∨ svInside c'.lastHVal c'.vals[i]!.v := by
+  rw [parseAllPAIValues_eq_wrap, paBump_wrap] at hr
+  have h0 : PaSpan ({ c.wrap with hNo := k, lastHVal := {} } : PPAIs) c.n o :=
+    ⟨Nat.zero_le _, fun i hn hi _ => by
+      have hi' : i < c.wrap.n := hi
+      rw [(paWrap_scalars c).1] at hi'; omega⟩
+  have := svc_paisLoop b o { c.wrap with hNo := k, lastHVal := {} } hfit ho hcl hcur c.n h0
+  rw [hr] at this
+  exact this rfl
+
+/-- the dispatch for a header of type P-Asserted-Identity that is not in the middle of its value list -/
+theorem svc_parseBody_pai (b : Buf) (i : Nat) (h : Hdr) (hv : PHdrVals) (ht : h.type = HdrPAI)
+    (hs : h.state ≠ .hPAI) :
+    parseBody b i h (some hv) =
+      ((parseAllPAIValues b i { hv.pais with hNo := hv.pais.hNo + 1, lastHVal := {} }).1,
+       (parseAllPAIValues b i { hv.pais with hNo := hv.pais.hNo + 1, lastHVal := {} }).2.1,
+       { h with state := .hPAI,
+                val := if (parseAllPAIValues b i { hv.pais with hNo := hv.pais.hNo + 1, lastHVal := {} }).2.1 == .ok
+                       then (parseAllPAIValues b i { hv.pais with hNo := hv.pais.hNo + 1, lastHVal := {} }).2.2.lastHVal
+                       else h.val },
+       some { hv with pais := (parseAllPAIValues b i { hv.pais with hNo := hv.pais.hNo + 1, lastHVal := {} }).2.2 }) := by
+  have hs' : (h.state != HState.hPAI) = true := by simpa using hs
+  unfold parseBody
+  simp only [ht, hs', ↓reduceIte]
+  rfl
+
+/-- **a Contact header line, header and values together**: for a header object of type Contact not in the middle of
+    its value list and an idle value list object, if the dispatch ends with OK then the header's `val` is the running
+    header value, the header count went up by one, and every value stored from this line lies inside `val` -/
+theorem svc_contact_header (b : Buf) (i : Nat) (h : Hdr) (hv : PHdrVals) (hfit : b.size ≤ 65535) (hi : i ≤ b.size)
+    (ht : h.type = HdrContact) (hs : h.state ≠ .hContact) (hcl : CtClean hv.contacts.wrap)
+    (hcur : hv.contacts.wrap.cur = {}) {n : Nat} {h2 : Hdr} {hv2 : PHdrVals}
+    (hr : parseBody b i h (some hv) = (n, .ok, h2, some hv2)) :
+    h2.val = hv2.contacts.lastHVal ∧ h2.val.offs + h2.val.len ≤ n ∧
+    ∀ j, hv.contacts.n ≤ j → j < hv2.contacts.n → j < hv2.contacts.vals.size →
+      hv2.contacts.vals[j]!.v.len = 0 ∨ svInside h2.val hv2.contacts.vals[j]!.v := by
+  rw [svc_parseBody_contact b i h hv ht hs] at hr
+  rcases hq : parseAllContactValues b i { hv.contacts with hNo := hv.contacts.hNo + 1, lastHVal := {} } with ⟨n1, e1, c⟩
+  rw [hq] at hr
+  simp only [Prod.mk.injEq] at hr
+  obtain ⟨rfl, rfl, rfl, hh⟩ := hr
+  have hc : c = hv2.contacts := by cases hh; rfl
+  subst hc
+  exact ⟨rfl, svc_contact_line b i hv.contacts _ hfit hi hcl hcur hq⟩
+
+/-- **a P-Asserted-Identity header line, header and values together** -/
+theorem svc_pai_header (b : Buf) (i : Nat) (h : Hdr) (hv : PHdrVals) (hfit : b.size ≤ 65535) (hi : i ≤ b.size)
+    (ht : h.type = HdrPAI) (hs : h.state ≠ .hPAI) (hcl : PaClean hv.pais.wrap)
+    (hcur : hv.pais.wrap.cur = {}) {n : Nat} {h2 : Hdr} {hv2 : PHdrVals}
+    (hr : parseBody b i h (some hv) = (n, .ok, h2, some hv2)) :
+    h2.val = hv2.pais.lastHVal ∧ h2.val.offs + h2.val.len ≤ n ∧
+    ∀ j, hv.pais.n ≤ j → j < hv2.pais.n → j < hv2.pais.vals.size →
+      hv2.pais.vals[j]!.v.len = 0 ∨ svInside h2.val hv2.pais.vals[j]!.v := by
+  rw [svc_parseBody_pai b i h hv ht hs] at hr
+  rcases hq : parseAllPAIValues b i { hv.pais with hNo := hv.pais.hNo + 1, lastHVal := {} } with ⟨n1, e1, c⟩
+  rw [hq] at hr
+  simp only [Prod.mk.injEq] at hr
+  obtain ⟨rfl, rfl, rfl, hh⟩ := hr
+  have hc : c = hv2.pais := by cases hh; rfl
+  subst hc
+  exact ⟨rfl, svc_pai_line b i hv.pais _ hfit hi hcl hcur hq⟩
+
+/-- test / non-vacuity: two Contact values on one line into a new list of capacity 3: the running header value
+    `[0, 21)` runs from the start of the first `V` (`[0, 9)`) to the end of the last one (`[12, 21)`) -/
+example : (parseAllContactValues "<sip:a@b> , <sip:c@d>\r\n\r\n".toUTF8.data 0
+      { ({ vals := Array.replicate 3 {} } : PContacts) with hNo := 1, lastHVal := {} }).2.1 = .ok ∧
+    (parseAllContactValues "<sip:a@b> , <sip:c@d>\r\n\r\n".toUTF8.data 0
+      { ({ vals := Array.replicate 3 {} } : PContacts) with hNo := 1, lastHVal := {} }).2.2.lastHVal = ⟨0, 21⟩ ∧
+    ((parseAllContactValues "<sip:a@b> , <sip:c@d>\r\n\r\n".toUTF8.data 0
+      { ({ vals := Array.replicate 3 {} } : PContacts) with hNo := 1, lastHVal := {} }).2.2.vals.toList.map
+        (fun f => f.v)).take 2 = [⟨0, 9⟩, ⟨12, 9⟩] := by decide +kernel
+
+/-- test: the idle hypotheses hold of a new list object of any capacity -/
+example (k : Nat) : CtClean ({ vals := Array.replicate k {} } : PContacts).wrap ∧
+    ({ vals := Array.replicate k {} } : PContacts).wrap.cur = {} := by
+  have hw : ({ vals := Array.replicate k {} } : PContacts).wrap = { vals := Array.replicate k {} } := by
+    unfold PContacts.wrap; simp [PFromBody.parsed]
+  rw [hw]
+  have hrep : ∀ j, j < k → (Array.replicate k ({} : PFromBody))[j]! = {} := by
+    intro j hj; simp [hj]
+  refine ⟨⟨fun j _ hj => hrep j (by simpa using hj), fun _ => rfl⟩, ?_⟩
+  unfold PContacts.cur
+  split
+  · rename_i hin; exact hrep _ (by simpa using hin)
+  · rfl
 
 end Sipsp
